@@ -106,7 +106,14 @@ func genWorldKeyed(src *choice.Src, o WOpts, keySeed uint64) *World {
 		w.OutLocked = true
 	}
 	if o.LayoutFault && src.Chance("oddout", 1, 6) {
-		switch src.Draw("oddoutk", 13) {
+		switch src.Draw("oddoutk", 15) {
+		case 13, 14:
+			w.OutKind, w.Out = "symlink-dotdot-via-linked-dir", "linkdir/out.go"
+			if src.Bool("linkeddir.dangling") {
+				w.PreOut = nil
+			} else {
+				w.PreOut = &InFile{Path: w.Out, Content: strings.Repeat("// SENTINEL old content behind the link\n", 3000) + "package old\n", Mode: 0644}
+			}
 		case 11, 12:
 			// a chain of symbolic links through several directories with relative targets: -o -> ../store/current -> deep/real.go
 			w.OutKind = "symlink-chain"
